@@ -50,7 +50,7 @@ OUT_ARGS = ["-oc", "o.cxx", "-od", "o.in", "-oh", "o.txt", "-module", "m", "-lib
 MODES = {
     "I": ("interrogate", ["-v", "-D__cplusplus"] + OUT_ARGS + ["-python-native"]),
     "I2": ("interrogate", ["-v", "-D__cplusplus"] + OUT_ARGS +
-           ["-c", "-python", "-promiscuous", "-fptrs", "-string", "-refcount", "-assert"]),
+           ["-c", "-python", "-promiscuous", "-fnames", "-string", "-refcount", "-assert"]),
     "P": ("parse_file", ["-D__cplusplus"]),
     "E": ("parse_file", ["-E", "-D__cplusplus"]),
 }
